@@ -10,6 +10,7 @@ import (
 
 	"verif/harness/distributor"
 	"verif/harness/minter"
+	"verif/harness/signature"
 	"verif/harness/vesting"
 	"verif/harness/walk"
 )
@@ -61,6 +62,13 @@ func main() {
 		res, err := vesting.Run(*edges, *workers, *budget, *walks, *depth, *seed)
 		if err != nil {
 			fmt.Fprintln(os.Stderr, "vesting:", err)
+			os.Exit(2)
+		}
+		writeResult(*out, res)
+	case "signature":
+		res, err := signature.Run(*edges, *workers, *budget, *walks, *depth, *seed)
+		if err != nil {
+			fmt.Fprintln(os.Stderr, "signature:", err)
 			os.Exit(2)
 		}
 		writeResult(*out, res)
